@@ -2,6 +2,7 @@
 
 from __future__ import annotations
 
+import json
 import re
 from typing import TYPE_CHECKING
 
@@ -34,6 +35,25 @@ RE_FLOW = re.compile(
     r"<(\/?)(iframe|noembed|noframes|plaintext|script|style|title|textarea|xmp)(?=[\t\n\f\r />])",
     re.IGNORECASE,
 )
+
+
+_RE_PLAIN_VALUE = re.compile(r"\w[\w./%+-]*(?: [\w./%+-]+)*")
+
+
+def _quote_option_value(value: str | None) -> str:
+    """Write an HTML attribute value as a directive option value.
+
+    Unless it is a plain run of words, the value is double-quoted
+    (JSON strings are valid YAML double-quoted scalars),
+    so that characters significant to the option syntax (``#``, ``|``, ``>``,
+    quotes, line breaks, ...) are carried over unchanged.
+    A value-less attribute is an empty string.
+    """
+    if value is None:
+        return ""
+    if _RE_PLAIN_VALUE.fullmatch(value):
+        return value
+    return json.dumps(value, ensure_ascii=False)
 
 
 def default_html(text: str, source: str, line_number: int) -> list[nodes.Element]:
@@ -91,7 +111,7 @@ def html_to_nodes(
                     )
                 ]
             content = "\n".join(
-                f":{k}: {v}"
+                f":{k}: {_quote_option_value(v)}"
                 for k, v in sorted(child.attrs.items())
                 if k in OPTION_KEYS_IMAGE
             )
@@ -115,7 +135,7 @@ def html_to_nodes(
             )
 
             options = "\n".join(
-                f":{k}: {v}"
+                f":{k}: {_quote_option_value(v)}"
                 for k, v in sorted(child.attrs.items())
                 if k in OPTION_KEYS_ADMONITION
             ).rstrip()
